@@ -90,6 +90,17 @@ CLAIMED = {
              "reference generators at that bus (population obligation on the bincount argument).",
         note="Assumed: sparse products are functions of their operands; bincount counts occurrences; A-LOOKUP; reals for floats. Not "
              "decided: global balance for AC (sum of nodal balances: Newton convergence, C01), branches with asymmetric series part."),
+    "C31": dict(
+        text="Proof for the generic transformer of a table of any size (2W table and the dict of equivalent 2W transformers of the 3W "
+             "transformers): the real _calc_tap_from_dataframe returns vn * voltage_ratio and shift +/- angle_deg of the row of "
+             "net.trafo_characteristic_table with the transformer's own (id_characteristic, tap_pos) - inverted at a star point - and "
+             "the real _get_vk_values_from_table returns vk / vkr of that row, whatever other transformers share the table. The merge "
+             "and the dict(zip()) lookups are interpreted in a table theory (join = set of key-equal row pairs, map lookup = some row "
+             "with the key, so that all rows with the key must agree); the star-point loop is verified through its counter invariant "
+             "(count_index = rank of i in mask), with a universally quantified alignment obligation.",
+        note="Assumed: (id_characteristic, step) is a key of the characteristic table and the own row exists (hypotheses of the "
+             "property); pandas merge / boolean-mask compression semantics as stated in pyvc.tabletheory. Not decided: spline "
+             "characteristics (create_trafo_characteristic_object), tap2 columns."),
 }
 
 NOT_APPLICABLE = {
